@@ -3,6 +3,8 @@ package main
 // C11: output format is a per-logger three-state machine.
 
 import (
+	"bytes"
+	"encoding/json"
 	"fmt"
 	"time"
 
@@ -73,6 +75,28 @@ func specModes(ops []Op, rets []int) []string {
 	return modes
 }
 
+type c11Flipper struct {
+	e    *slog.Entry
+	from string // J C L: the format the logger is in; String() moves it on to the next one (J -> C -> L -> C)
+	done *bool
+}
+
+func (f c11Flipper) String() string {
+	if !*f.done {
+		*f.done = true
+		switch f.from {
+		case "J":
+			f.e.SetJSONMode(false)
+			f.e.SetColorMode(true)
+		case "C":
+			f.e.SetColorMode(false)
+		default:
+			f.e.SetColorMode(true)
+		}
+	}
+	return "flipped"
+}
+
 func c11One(r *Run, snap *slog.VerifRegistry, ops []Op, kind string) {
 	t := NewTreeExec(snap)
 	lvl0 := int(slog.GetLevel())
@@ -103,6 +127,29 @@ func c11One(r *Run, snap *slog.VerifRegistry, ops []Op, kind string) {
 	// direct oracle
 	spec := specModes(ops, rets)
 	rep := c11Replay{Kind: kind, Lvl0: lvl0, Ops: ops, Rets: rets}
+	// one record, one format: a value whose String() switches the logger's format WHILE the record is being written
+	// (a lazily rendered value that reconfigures logging) - the whole record is in the format of the moment of the call
+	for i, e := range t.loggers {
+		if (i+len(ops))%2 != 0 {
+			continue
+		}
+		done := false
+		events = nil
+		e.Print("probe in flight", "a", 1, "flip", c11Flipper{e, spec[i], &done}, "z", 2)
+		sh := "?"
+		if len(events) > 0 {
+			sh = shapeOf(events[len(events)-1].Payload)
+		}
+		want := map[string]string{"J": "ShJSON", "C": "ShColor", "L": "ShLogfmt"}[spec[i]]
+		if sh == "ShJSON" && !json.Valid(bytes.TrimSpace(events[len(events)-1].Payload)) {
+			sh = "?"
+		}
+		if done && sh != want {
+			rep.Obs, rep.Exp = map[string]any{"logger": i, "shape_of_record_in_flight": sh, "payload": string(events[len(events)-1].Payload)}, spec
+			r.Fail("C11/shape-in-flight", fmt.Sprintf("logger %d (%s): its format was switched by a value's String() while the record was being written; the record reads as %s, neither wholly the format of the call (%s)", i, spec[i], sh, want), rep)
+			break
+		}
+	}
 	for i := range t.loggers {
 		exp := map[string]ob{"J": {true, false, "ShJSON"}, "C": {false, true, "ShColor"}, "L": {false, false, "ShLogfmt"}}[spec[i]]
 		if obs[i] != exp {
